@@ -36,7 +36,7 @@ pub fn gen_glued(t: &mut Tape) -> Option<Glued> {
     let mut lines = Vec::new();
     let n = t.urange(1, 3);
     for _ in 0..n {
-        match t.draw(3) {
+        match t.draw(4) {
             0 => {
                 rules.push("wt {n}ms => 0x51 @ n`8".to_string());
                 if t.flip() {
@@ -51,9 +51,19 @@ pub fn gen_glued(t: &mut Tape) -> Option<Glued> {
                 }
                 lines.push(("lq".to_string(), format!("{}b", *t.pick(&["7", "0x1", "0x1b", "12", "0xa"]))));
             }
-            _ => {
+            2 => {
                 rules.push("sf {a}x{b} => 0x53 @ a`4 @ b`4".to_string());
                 lines.push(("sf".to_string(), format!("{}x{}", t.draw(10), t.draw(10))));
+            }
+            _ => {
+                // two expression parameters separated by an operator character: the look-ahead must find the
+                // separating `-` / `+`, not one that belongs to the first operand (`-1 - 2`, `(1 - 2) - 3`)
+                rules.push("sb {x} - {y} => 0x56 @ x`8 @ y`8".to_string());
+                rules.push("sa {x} + {y} => 0x57 @ x`8 @ y`8".to_string());
+                let m = if t.flip() { "sb" } else { "sa" };
+                let sep = if m == "sb" { "-" } else { "+" };
+                let first = *t.pick(&["5", "-1", "(1 - 2)", "0x10", "-(3)", "(2 + 2)"]);
+                lines.push((m.to_string(), format!("{} {} {}", first, sep, t.draw(9))));
             }
         }
     }
